@@ -19,6 +19,8 @@ open Atomman Atomman.C09 Atomman.Gen
     unit cp…                   → value | err:value        `uc.unit[name]` under the state scalings
     set n x1…xn cp…            → n values | err           `uc.set_in_units([x…], str)`
     get n x1…xn cp…            → n values | err           `uc.get_in_units([x…], str)`
+    setc 2n re1 im1 … cp…      → 2n values | err          `uc.set_in_units` of n COMPLEX values (`setInUnitsC`: the factor is
+    getc 2n re1 im1 … cp…      → 2n values | err          promoted to f + 0j; complex product / quotient), parts interleaved
     setlit cp…                 → value | err:value        `uc.set_literal(str)` when the result is a scalar
     setlitv cp…                → shape | values | err     `uc.set_literal(str)`: shape (`-` scalar, else d1,d2,…) and the
                                                           values in row-major order (numbers, nested lists / tuples)
@@ -256,6 +258,23 @@ def step (sc : Scales Rat) (toks : List String) : Scales Rat × String :=
       (sc, guarded (parseUnits gvAlg envG (some cs)) fun _ =>
         match parseUnits rAlg env (some cs) with
         | some f => if f = 0 then err "value" else showRats (getInUnits xs f)
+        | none => err "value")
+    | none => (sc, err "format")
+  | "setc" :: rest =>
+    match splitCount rest with
+    | some (xs, cs) =>
+      (sc, guarded (parseUnits gvAlg envG (some cs)) fun _ =>
+        match parseUnits rAlg env (some cs) with
+        | some f => if xs.length % 2 = 1 then err "format" else showRats (cxFlat (setInUnitsC (cxPairs xs) f))
+        | none => err "value")
+    | none => (sc, err "format")
+  | "getc" :: rest =>
+    match splitCount rest with
+    | some (xs, cs) =>
+      (sc, guarded (parseUnits gvAlg envG (some cs)) fun _ =>
+        match parseUnits rAlg env (some cs) with
+        | some f => if f = 0 then err "value" else if xs.length % 2 = 1 then err "format"
+                    else showRats (cxFlat (getInUnitsC (cxPairs xs) f))
         | none => err "value")
     | none => (sc, err "format")
   | "setlit" :: rest =>
